@@ -21,6 +21,7 @@ type scopeGen struct {
 	maxIn  int
 	kinds  map[string]int
 	loopV  int
+	useFirst []string
 	loopVars map[int]map[string]bool
 }
 
@@ -201,15 +202,18 @@ func (g *scopeGen) stmt(tag *int) {
 		case k == v || g.rng.Intn(3) == 0:
 			g.scopes[len(g.scopes)-1][v] = true
 			g.line("for _, %s := range []int{%s, %s} {", v, g.in(), g.in())
+			g.useFirst = []string{v}
 			g.kinds["range-value"]++
 		case g.rng.Intn(2) == 0:
 			g.scopes[len(g.scopes)-1][k] = true
 			g.line("for %s := range []int{%s, %s} {", k, g.in(), g.in())
+			g.useFirst = []string{k}
 			g.kinds["range-key"]++
 		default:
 			g.scopes[len(g.scopes)-1][k] = true
 			g.scopes[len(g.scopes)-1][v] = true
 			g.line("for %s, %s := range []int{%s, %s} {", k, v, g.in(), g.in())
+			g.useFirst = []string{k, v}
 			g.kinds["range-key-value"]++
 		}
 		g.block(tag, 2)
@@ -237,6 +241,10 @@ func (g *scopeGen) block(tag *int, n int) {
 	g.push()
 	g.indent++
 	g.depth++
+	for _, u := range g.useFirst {
+		g.line("_ = %s", u)
+	}
+	g.useFirst = nil
 	for i := 0; i < n; i++ {
 		g.stmt(tag)
 	}
